@@ -5,7 +5,7 @@ import io
 import spec
 
 OBLIGATION_MODULES = ["PyModeS.Properties.C16"]
-TIE_MODULES = ['PyModeS.Tie.Source', 'PyModeS.Tie.RawReader', 'PyModeS.Tie.SkyReader', 'PyModeS.Tie.BeastReader', 'PyModeS.Tie.C16Gen']
+TIE_MODULES = ['PyModeS.Tie.Source', 'PyModeS.Tie.RawReader', 'PyModeS.Tie.SkyReader', 'PyModeS.Tie.BeastReader', 'PyModeS.Tie.C16Gen', 'PyModeS.Tie.MiscFields']
 MAIN_THEOREM = "PyModeS.C16.beast_chunk_invariant / raw_chunk_invariant / skysense_chunk_invariant / netsource_conservation"
 RULE = ("streams of 1-8 frames (0x1A forced into timestamp / signal / payload, other Beast types interleaved) x every single cut, "
         "double cuts, random multi-cuts down to 1-byte pieces; non-trivial = segmentation with at least one cut inside a frame")
